@@ -318,6 +318,8 @@ impl Monitor for OrderMon {
         // of this call (all of which precede the round)
         let mut ended_in_round: Vec<usize> = vec![];
         let mut in_round = false;
+        // machine that was most recently handed an external event or a Signal
+        let mut last_external: Option<usize> = None;
         for r in &out.log {
             match r {
                 Rec::Ended { mi } if *mi < m => {
@@ -330,8 +332,25 @@ impl Monitor for OrderMon {
                 Rec::SignalRoundStart => in_round = true,
                 Rec::Deliver { mi, event } => {
                     let Some(kind) = external_kind(*event) else {
+                        // internal LimitReached / CounterZero are handled immediately:
+                        // no other machine may have been handed an external event since
+                        // the one that raised them
+                        if *event == Event::Signal {
+                            last_external = Some(*mi);
+                            continue;
+                        }
+                        if last_external != Some(*mi) {
+                            return Some((
+                                "processing-order".into(),
+                                format!(
+                                    "{event:?} was handled for machine {mi} only after machine {:?} had been handed its next event (internal events are handled immediately)",
+                                    last_external
+                                ),
+                            ));
+                        }
                         continue;
                     };
+                    last_external = Some(*mi);
                     if in_round {
                         return Some((
                             "processing-order".into(),
